@@ -16,6 +16,7 @@ import (
 
 	"github.com/facebookincubator/dns/dnsrocks/db"
 	dcdb "github.com/facebookincubator/dns/dnsrocks/dnsdata/cdb"
+	"github.com/facebookincubator/dns/dnsrocks/dnsdata/rdb"
 	"github.com/facebookincubator/dns/dnsrocks/dnsserver"
 	"github.com/facebookincubator/dns/dnsrocks/dnsserver/stats"
 
@@ -47,7 +48,8 @@ type C11Scenario struct {
 	Glue     []C11Cand    `json:"glue"` // address records of the NS / MX target
 	Clients  [][]C11Query `json:"clients"`
 	RandSeed int64        `json:"rand_seed"`
-	Stat     bool         `json:"stat,omitempty"` // also run the proportionality test (max answer 1, 20000 draws)
+	Backend  string       `json:"backend,omitempty"` // "" = cdb, "rdb1", "rdb2" (the answer code differs per storage layout)
+	Stat     bool         `json:"stat,omitempty"`    // also run the proportionality test (max answer 1, 20000 draws)
 	Tape     []uint8      `json:"tape"`
 	TapeSeed uint64       `json:"tape_seed"`
 	Calm     int          `json:"calm"`
@@ -82,6 +84,7 @@ func drawC11(rt *rapid.T, tier string) C11Scenario {
 		Calm:     rapid.IntRange(0, 2).Draw(rt, "calm"),
 		TapeSeed: rapid.Uint64().Draw(rt, "tape_seed"),
 	}
+	sc.Backend = rapid.SampledFrom([]string{"", "", "", "", "", "", "", "", "", "rdb1", "rdb2", "rdb2"}).Draw(rt, "backend")
 	sc.Tape = rapid.SliceOfN(rapid.Uint8(), 0, 64).Draw(rt, "tape")
 	return sc
 }
@@ -95,7 +98,7 @@ func summaryC11(sc C11Scenario) interface{} {
 	for _, c := range sc.Clients {
 		n += len(c)
 	}
-	return map[string]interface{}{"candidates": cs, "glue_records": len(sc.Glue), "clients": len(sc.Clients), "queries": n, "proportionality_test": sc.Stat}
+	return map[string]interface{}{"candidates": cs, "glue_records": len(sc.Glue), "clients": len(sc.Clients), "queries": n, "proportionality_test": sc.Stat, "backend": sc.Backend}
 }
 
 func c11IP(c C11Cand) string {
@@ -174,11 +177,25 @@ func runC11(t *testing.T, sc C11Scenario, keep bool) *core.Result {
 		res.HarnessErr = err.Error()
 		return res
 	}
-	if _, err := dcdb.CreateCDB(in, out, &dcdb.CreatorOptions{NumCPU: 1}); err != nil {
-		res.HarnessErr = "compile: " + err.Error()
-		return res
+	driver := "cdb"
+	if sc.Backend == "" {
+		if _, err := dcdb.CreateCDB(in, out, &dcdb.CreatorOptions{NumCPU: 1}); err != nil {
+			res.HarnessErr = "compile: " + err.Error()
+			return res
+		}
+	} else {
+		driver, out = "rocksdb", filepath.Join(dir, "data.rdb")
+		if err := os.MkdirAll(out, 0o755); err != nil {
+			res.HarnessErr = err.Error()
+			return res
+		}
+		if _, err := rdb.CompileToSpecificRDBVersion(in, out, rdb.CompilationOptions{NumCPU: 1, UseV2KeySyntax: sc.Backend == "rdb2", UseBuilder: true}); err != nil {
+			res.HarnessErr = "compile: " + err.Error()
+			return res
+		}
+		res.Probe("rocksdb_backend")
 	}
-	fb, err := dnsserver.NewFBDNSDBBasic(dnsserver.HandlerConfig{}, dnsserver.DBConfig{Path: out, Driver: "cdb"}, dnsserver.CacheConfig{}, &dnsserver.DummyLogger{}, &stats.DummyStats{})
+	fb, err := dnsserver.NewFBDNSDBBasic(dnsserver.HandlerConfig{}, dnsserver.DBConfig{Path: out, Driver: driver}, dnsserver.CacheConfig{}, &dnsserver.DummyLogger{}, &stats.DummyStats{})
 	if err != nil {
 		res.HarnessErr = err.Error()
 		return res
